@@ -58,7 +58,7 @@ def mulmod_uf(name):
     return f
 
 
-def install_value_model(m, mul='exact', which=('field', 'scalar'), check_pre=True):
+def install_value_model(m, mul='exact', which=('field', 'scalar'), check_pre=True, range_axioms=False):
     """mul: 'exact' (512-bit urem; only for concrete/narrow data), 'uf' (uninterpreted, commutative)"""
     for w in which:
         pre = FIELD if w == 'field' else SCALAR
@@ -87,12 +87,18 @@ def install_value_model(m, mul='exact', which=('field', 'scalar'), check_pre=Tru
         def c_setone(m, a):
             _st(m, a[0], 1)
 
+        def rng(m, v, mod):
+            # kernel range contract (C01/C02 kernel/*/range): the product is a reduced residue
+            if range_axioms and isinstance(v, tm.T):
+                m.ctx.assume(tm.ult(v, mod, 256))
+            return v
+
         def c_mul(m, a, mod=mod, mm=mm):
-            _st(m, a[0], mm(_ld(m, a[1]), _ld(m, a[2]), mod))
+            _st(m, a[0], rng(m, mm(_ld(m, a[1]), _ld(m, a[2]), mod), mod))
 
         def c_sq(m, a, mod=mod, mm=mm):
             v = _ld(m, a[1])
-            _st(m, a[0], mm(v, v, mod))
+            _st(m, a[0], rng(m, mm(v, v, mod), mod))
 
         def c_add(m, a, mod=mod):
             _st(m, a[0], tm.trunc(R.spec_addmod(tm.lift(_ld(m, a[1]), 256), tm.lift(_ld(m, a[2]), 256), mod), 256))
